@@ -55,7 +55,7 @@ def _process_vlandb(rule, key, diff, multi, multi_all, multi_chunk):  # pylint: 
         for op in (Op.ADDED, Op.REMOVED):
             assert 0 <= len(diff[op]) <= 1, "Too many actions: %r" % (diff)
 
-    if diff[Op.REMOVED] and not diff[Op.ADDED]:  # Removed
+    if diff[Op.REMOVED] and not diff[Op.ADDED] and not diff[Op.UNCHANGED]:  # Removed
         if multi and multi_all:
             yield (False, rule["reverse"].format(*key) + " all", None)
             return
